@@ -241,59 +241,71 @@ def _blame_reject(cls, conf):
 
 
 # ------------------------------------------------------------------------------------------ generation
+def gen_class(draw, broken_defaults=True, min_attrs=1):
+    generic = draw(st.sampled_from([False, False, True]))
+    targ = draw(st.sampled_from([*TT.TARGS, None])) if generic else None
+    allow_self = draw(st.sampled_from([False, False, True]))
+    n = draw(st.integers(min_attrs, 4))
+    attrs = []
+    dummy_env = TT.Env(cls=_Never, targ=targ)
+    ctx0 = {"targ": targ, "self_impossible": True}
+    for i in range(n):
+        term = draw(TT.term_strategy(generic, allow_self))
+        default = None
+        default_ok = True
+        roll = draw(st.integers(0, 19))
+        if roll < 6:
+            d = TT.gen_value(draw, term, ctx0)
+            if d is not None and _renderable(d):
+                default = d
+        elif roll == 6 and broken_defaults:
+            d = TT.definitely_wrong(draw, term, ctx0, dummy_env, top=False)
+            if d is not None and _renderable(d) and d["v"] != "missing":
+                default = d
+                default_ok = False
+        attrs.append({"name": f"a{i}", "term": term, "default": default, "default_ok": default_ok})
+    return {"generic": generic, "targ": targ, "attrs": attrs}, allow_self
+
+
+def gen_args(draw, cls, mode, omit_required=True):
+    """mode: good | one-broken | random. Returns (args, broken_depth)"""
+    attrs, targ = cls["attrs"], cls["targ"]
+    ctx = {"targ": targ, "self_attrs": attrs}
+    n = len(attrs)
+    victim = draw(st.integers(0, n - 1))
+    args = {}
+    broken_depth = None
+    for i, a in enumerate(attrs):
+        choice = "good"
+        if mode == "one-broken" and i == victim:
+            choice = "broken"
+        elif mode == "random":
+            choice = draw(st.sampled_from(["good", "good", "broken", "omit"]))
+        elif a["default"] is not None and draw(st.integers(0, 2)) == 0:
+            choice = "omit"
+        elif omit_required and draw(st.integers(0, 11)) == 0:
+            choice = "omit"
+        if choice == "good":
+            args[a["name"]] = TT.gen_value(draw, a["term"], ctx)
+        elif choice == "broken":
+            r = TT.gen_broken(draw, a["term"], ctx, TT.Env(cls=_Never, targ=targ))
+            if r is None:
+                args[a["name"]] = TT.gen_value(draw, a["term"], ctx)
+            else:
+                args[a["name"]] = r[0]
+                broken_depth = max(broken_depth or 0, r[1])
+        else:
+            args[a["name"]] = None
+    return args, broken_depth
+
+
 def strategy(tier):
     @st.composite
     def cases(draw):
-        generic = draw(st.sampled_from([False, False, True]))
-        targ = draw(st.sampled_from([*TT.TARGS, None])) if generic else None
-        allow_self = draw(st.sampled_from([False, False, True]))
-        n = draw(st.integers(1, 4))
-        attrs = []
-        dummy_env = TT.Env(cls=_Never, targ=targ)
-        ctx0 = {"targ": targ, "self_impossible": True}
-        for i in range(n):
-            term = draw(TT.term_strategy(generic, allow_self))
-            default = None
-            default_ok = True
-            roll = draw(st.integers(0, 19))
-            if roll < 6:
-                d = TT.gen_value(draw, term, ctx0)
-                if d is not None and _renderable(d):
-                    default = d
-            elif roll == 6:
-                d = TT.definitely_wrong(draw, term, ctx0, dummy_env, top=False)
-                if d is not None and _renderable(d) and d["v"] != "missing":
-                    default = d
-                    default_ok = False
-            attrs.append({"name": f"a{i}", "term": term, "default": default, "default_ok": default_ok})
-        cls = {"generic": generic, "targ": targ, "attrs": attrs}
-        ctx = {"targ": targ, "self_attrs": attrs}
+        cls, _ = gen_class(draw)
         mode = draw(st.sampled_from(["good", "good", "good", "one-broken", "one-broken", "random"]))
-        victim = draw(st.integers(0, n - 1))
-        args = {}
-        broken_depth = None
-        for i, a in enumerate(attrs):
-            choice = "good"
-            if mode == "one-broken" and i == victim:
-                choice = "broken"
-            elif mode == "random":
-                choice = draw(st.sampled_from(["good", "good", "broken", "omit"]))
-            elif a["default"] is not None and draw(st.integers(0, 2)) == 0:
-                choice = "omit"
-            elif draw(st.integers(0, 11)) == 0:
-                choice = "omit"
-            if choice == "good":
-                args[a["name"]] = TT.gen_value(draw, a["term"], ctx)
-            elif choice == "broken":
-                r = TT.gen_broken(draw, a["term"], ctx, dummy_env if not allow_self else TT.Env(cls=_Never, targ=targ))
-                if r is None:
-                    args[a["name"]] = TT.gen_value(draw, a["term"], ctx)
-                else:
-                    args[a["name"]] = r[0]
-                    broken_depth = max(broken_depth or 0, r[1])
-            else:
-                args[a["name"]] = None
-        for a in attrs:
+        args, broken_depth = gen_args(draw, cls, mode)
+        for a in cls["attrs"]:
             a.pop("default_ok", None)
         return {"cls": cls, "args": args, "broken_depth": broken_depth}
 
